@@ -29,6 +29,7 @@ def run(ctx):
     pair_rule(ctx, syn)
     arms_rule(ctx, syn)
     ident_rule(ctx, syn)
+    add_rule(ctx, syn)
 
 
 # ====================================================================== LIMIT
@@ -501,3 +502,64 @@ def ident_rule(ctx, syn):
     except (Unknown, Panic) as e:
         ctx.report(r, "unevaluated", "Eq / Ord of ResultItem could not be evaluated (%s): the identity of result items is not established" % e, "src/store.rs", None)
     ctx.floor(r, r.instances, 16, "pairs of result items")
+
+
+# ====================================================================== ADD
+def add_rule(ctx, syn):
+    """ADD queries: `TARGET ?x OFFSET b e` on a TEXT result addresses text *relative to the selected text*.
+    The offset may reach the selector builder only after `<selection>.textselection(offset)` has resolved it
+    against that selection; passed on as is, it is read relative to the whole resource."""
+    r = ctx.rule("C08.ADD", "in query_mut the OFFSET of a TARGET assignment on a text selection reaches SelectorBuilder::TextSelector only through <selection>.textselection(offset)")
+    fl = [f for f in syn.fns if f.name == "query_mut" and f.file == "src/api/query.rs" and f.body is not None]
+    if len(fl) != 1:
+        ctx.anchor_missing(r, "fn AnnotationStore::query_mut")
+        return
+    f = fl[0]
+    ctx.functions_analysed.add(f.qual)
+    n = 0
+    for m in find(f.body, "match"):
+        for arm in m["arms"]:
+            ps = re.sub(r"\s+", "", arm["pat"]["s"])
+            mm = re.search(r"QueryResultItem::TextSelection\((\w+)\)", ps)
+            if not mm:
+                continue
+            lets = {}
+            for nd in walk(arm["body"]):
+                if nd.get("k") == "let" and nd.get("init") is not None:
+                    for nm in pat_names(nd["pat"]):
+                        lets.setdefault(nm, []).append(nd["init"])
+            for c in find(arm["body"], "call"):
+                if unparse(c["func"]) != "SelectorBuilder::TextSelector" or len(c["args"]) != 2:
+                    continue
+                n += 1
+
+                def raw_offset_use(e, depth=0, seen=None):
+                    """does e use the assignment's `offset` other than as the argument of .textselection(..)?"""
+                    seen = seen or set()
+                    e = strip(e)
+                    k = e.get("k")
+                    if k == "mcall" and e["method"] == "textselection":
+                        return raw_offset_use(e["recv"], depth, seen)
+                    if k == "path" and len(e["path"]) == 1:
+                        nm = e["path"][0]
+                        if nm == "offset":
+                            # a local re-binding `let offset = ...` inside the arm is followed, the assignment's own offset is raw
+                            if nm in lets and depth < 6 and ("offset", depth) not in seen:
+                                seen.add(("offset", depth))
+                                return any(raw_offset_use(i, depth + 1, seen) for i in lets[nm])
+                            return True
+                        if nm in lets and depth < 6 and nm not in seen:
+                            seen.add(nm)
+                            return any(raw_offset_use(i, depth + 1, seen) for i in lets[nm])
+                        return False
+                    return any(raw_offset_use(ch, depth, seen) for ch in children_of(e))
+                raw = raw_offset_use(c["args"][1])
+                r.hit("TextSelector#%d" % n, sample={"offset_argument": unparse(c["args"][1])[:60], "uses_raw_offset": raw})
+                if raw:
+                    ctx.report(r, "raw-offset", "query_mut builds SelectorBuilder::TextSelector(.., %s) from the assignment's OFFSET without resolving it against the selected text (`.textselection(offset)`): the ADD query annotates text at that offset counted from the start of the resource, not from the start of the selection, unlike the equivalent direct annotate() call" % unparse(c["args"][1])[:50], f.file, c.get("l"))
+    ctx.floor(r, n, 2, "TextSelector targets built from TEXT results in query_mut")
+
+
+def children_of(e):
+    from synq import children
+    return list(children(e))
